@@ -106,6 +106,27 @@ Proof.
   rewrite (wlayout_sound wr_gen d _ _ _ Ew). rewrite Hlw, H1, H4, H3. reflexivity.
 Qed.
 
+(* ---------- content header, frame, storage records ---------- *)
+From GMQ Require Import Proofs.CodecRecordProofs.
+
+Lemma gen_header_roundtrip : forall d h, wf_header_gen d h = true ->
+  exists b, encode_header d h = Some b /\ forall rest, decode_header d (b ++ rest) = Ok (h, rest).
+Proof. intros d h H. exact (header_roundtrip longstr_alloc rd_gen wr_gen d props_fields props_read props_write h gen_props_desc_wf H). Qed.
+
+Lemma gen_frame_roundtrip : forall f rest, wf_frame f = true -> decode_frame (encode_frame f ++ rest) = Ok (f, rest).
+Proof. intros. apply frame_roundtrip. assumption. Qed.
+
+Lemma gen_message_roundtrip : forall d m, wf_message_gen d m = true ->
+  exists b, encode_message d m = Some b /\ forall rest, decode_message d (b ++ rest) = Ok (m, rest).
+Proof.
+  intros d m H.
+  exact (message_roundtrip longstr_alloc frame_alloc c_FrameEnd rd_gen wr_gen d props_fields props_read props_write m gen_props_desc_wf H).
+Qed.
+
+Lemma gen_binding_roundtrip : forall d b, wf_binding_gen d b = true ->
+  exists bs, encode_binding d b = Some bs /\ forall rest, decode_binding d (bs ++ rest) = Ok (b, rest).
+Proof. intros d b H. exact (binding_roundtrip longstr_alloc rd_gen wr_gen d b H). Qed.
+
 (* ---------- decoder part of C11 over the regenerated shapes ---------- *)
 From GMQ Require Import Proofs.CodecTotalProofs.
 
